@@ -16,6 +16,8 @@ from harness.refs import multipart as ref
 
 LEVEL = "exploration"
 RULES = {
+    "spool": "enumerated: uploads below / at / just above / far above UploadFile.spool_max_size x two chunk sizes x sync/async helper with the library's own "
+    "file sink: above the spool size the upload must have left process memory, and the content reads back exactly; non-trivial = above the spool size",
     "limits": "Hypothesis: forms as in C01 (smaller) x max_form_parts in {n-1, n, n+1} x max_form_memory_size in {T-1, T, T+1, None} "
     "for the exact totals n (parts) and T (bytes of non-file content) x partitions {whole, bytewise, drawn cuts} x sync and async "
     "helper; 413 must be raised exactly when a limit is exceeded; non-trivial = a limit within +-1 of the exact total",
@@ -309,7 +311,67 @@ def oracle_lag(case) -> Result:
     return r
 
 
-SUBS = {"limits": oracle_limits, "default": oracle_default, "lag": oracle_lag, "lag_grid": oracle_lag}
+def oracle_spool(case) -> Result:
+    """The library's own file sink: an upload larger than UploadFile.spool_max_size must not stay in
+    process memory (the anchored mechanism 'memory up to the spool size, then disk'), one below it may;
+    the content reads back exactly either way."""
+    from harness import gateways as gw
+
+    r = Result()
+    limit = UploadFile.spool_max_size
+    size = {"below": max(limit // 4, 1), "at": limit, "above": limit + 1, "far-above": 3 * limit + 17}[case["size"]]
+    chunk = case["chunk"]
+    boundary = b"BoUnD"
+    head = b'--BoUnD\r\nContent-Disposition: form-data; name="f"; filename="big.bin"\r\nContent-Type: application/octet-stream\r\n\r\n'
+    tail = b"\r\n--BoUnD--\r\n"
+    unit = bytes(range(256)) * 16
+
+    def chunks():
+        yield head
+        sent = 0
+        while sent < size:
+            n = min(chunk, size - sent)
+            piece = (unit * (n // len(unit) + 1))[sent % len(unit):][:n]
+            sent += n
+            yield piece
+        yield tail
+
+    def expected_content():
+        return b"".join(list(chunks())[1:-1])
+
+    ctx = f"{case!r} (spool_max_size {limit}, upload {size} bytes)"
+    try:
+        if case["route"] == "sync":
+            items = parse_stream(chunks(), boundary, "utf-8", file_factory=UploadFile)
+        else:
+
+            async def stream():
+                for c in chunks():
+                    yield c
+
+            items = gw.run_sync(parse_async_stream(stream(), boundary, "utf-8", file_factory=UploadFile))
+    except HTTPException as exc:
+        r.fail(f"C15:spool:{case['route']}:raised", f"{ctx}: {exc!r}")
+        return r
+    if len(items) != 1 or isinstance(items[0][1], str):
+        r.fail(f"C15:spool:{case['route']}:items", f"{ctx}: {[(k, type(v).__name__) for k, v in items]!r}")
+        return r
+    up = items[0][1]
+    try:
+        if size > limit and up.in_memory:
+            r.fail(f"C15:spool:{case['route']}:large-upload-held-in-memory", f"{ctx}: after parsing, the upload is still an in-memory buffer")
+        up.seek(0)
+        data = up.read()
+        if data != expected_content():
+            r.fail(f"C15:spool:{case['route']}:content", f"{ctx}: read back {len(data)} bytes, differs from what was sent")
+    finally:
+        up.close()
+    r.nontrivial = size > limit
+    r.label(f"size={case['size']}", f"route={case['route']}", f"chunk={chunk}")
+    return r
+
+
+SUBS = {"spool": oracle_spool, "limits": oracle_limits, "default": oracle_default, "lag": oracle_lag, "lag_grid": oracle_lag}
 
 
 def limits_case():
@@ -357,6 +419,8 @@ def run(rec, only=None):
     quick = rec.tier == "quick"
     core.drive_cases(rec, "default", [{"parts": n, "chunk": c} for n in (323, 324, 325, 326) for c in (97, 4096)], oracle_default)
     rec.exhaustive["default"] = True
+    core.drive_cases(rec, "spool", [{"size": z, "chunk": c, "route": w} for z in ("below", "at", "above", "far-above") for c in (65536, 1 << 20) for w in ("sync", "async")], oracle_spool)
+    rec.exhaustive["spool"] = True
     grid = list(lag_grid())
     core.drive_cases(rec, "lag_grid", grid[::3] if quick else grid, oracle_lag)
     rec.exhaustive["lag_grid"] = not quick
